@@ -250,7 +250,7 @@ def loss_name(a):
     if loss == "garbage":
         return "protocol garbage (%s)" % a["variant"]
     if loss == "send_fails_first":
-        return "a failed user write (send raises EPIPE, inbound %s + FIN still queued)" % a["variant"]
+        return "a failed user write (send raises EPIPE while inbound requests + FIN are still queued)"
     if a["medium"] == "proxy":
         return "%s over ProxyCommand" % loss
     return loss
